@@ -313,7 +313,18 @@ pub fn apply(doc: &str, d: &Damage) -> Option<Vec<u8>> {
                 return None;
             }
             let p = strs[*idx % strs.len()].clone();
-            *get_mut(&mut j, &p)? = json!(["zzUnknownToken", "", "\u{0}", "->->->", "^"][*idx % 5]);
+            let old = get_ref(&j, &p).and_then(|v| v.as_str()).unwrap_or("").to_string();
+            let new = match *idx % 7 {
+                // a text or command that lost its first character ("^text" -> "text")
+                5 => old.chars().skip(1).collect::<String>(),
+                // a long unknown token of multi-byte characters at every alignment (error texts that quote or shorten it)
+                6 => {
+                    let ch = ["\u{e9}", "\u{20ac}", "\u{1F600}"][(*idx / 7) % 3];
+                    format!("{}{}", "x".repeat((*idx / 21) % 4), ch.repeat(40))
+                }
+                k => ["zzUnknownToken", "", "\u{0}", "->->->", "^"][k].to_string(),
+            };
+            *get_mut(&mut j, &p)? = json!(new);
             Some(j.to_string().into_bytes())
         }
         Damage::NestBomb(depth, obj) => {
